@@ -313,6 +313,19 @@ def do_op(data, name, args, preload=False):
         return ('raise', type(e).__name__), None
     n0 = len(f.reads)
     try:
+        return _do_op_once(r, f, n0, name, args)
+    except Exception as e:
+        # the SAME call once more on the same reader object: what the failed attempt left behind (a half-filled memo, a
+        # cached placeholder) must not turn the retry into a value that the complete file does not give
+        n1 = len(f.reads)
+        try:
+            return _do_op_once(r, f, n0, name, args)
+        except Exception:
+            return ('raise', type(e).__name__), f.reads[n0:n1]
+
+
+def _do_op_once(r, f, n0, name, args):
+    if True:
         if name == 'open':
             v = [r.n_ilines if r.is_3d else 0, r.n_xlines if r.is_3d else 0, r.n_samples, r.tracecount, list(r.blockshape),
                  float(r.rate), bytes(r.file_text_header), bytes(r.file_binary_header), r.compressed_data_diskblocks,
@@ -330,8 +343,6 @@ def do_op(data, name, args, preload=False):
         else:
             v = getattr(r, name)(*args)
         return ('val', canon(v)), f.reads[n0:]
-    except Exception as e:
-        return ('raise', type(e).__name__), f.reads[n0:]
 
 
 def cuts_in(n, dense=()):
@@ -748,11 +759,63 @@ def copy_writers(recs, pool):
             R.violation('oracle', inp0, 'the exported SEG-Y is complete, but the patch handle found / wrote other bytes than on a fresh path')
 
 
+def interrupted_by_exception(rec):
+    """the INPUT fails while plane set / trace group k is being read (an exception out of the reader, not a crash): the
+    converter raises; whatever it leaves under the output path is a partial file like any other: every call on it raises or
+    answers like the complete file (nothing may be appended behind the blocks written so far)"""
+    import seismic_zfp.conversion_utils as cu_
+    label, conv, final = rec['label'], rec['conv'], rec['final']
+    names = [n_ for n_ in ('io_thread_func', 'unstructured_io_thread_func', 'io_thread_func_2d') if hasattr(cu_, n_)]
+    hdr_final = final[:960] + final[980:8192]
+    n_state = {}
+    for k in (1, 2, 3):
+        out = os.path.join(d, label + '.interrupted.sgz')
+        if os.path.exists(out):
+            os.remove(out)
+        count = [0]
+
+        def wrap(orig):
+            def w(*a_, **k_):
+                count[0] += 1
+                if count[0] == k:
+                    raise OSError('injected: the input failed')
+                return orig(*a_, **k_)
+            return w
+        saved = {n_: getattr(cu_, n_) for n_ in names}
+        for n_ in names:
+            setattr(cu_, n_, wrap(saved[n_]))
+        try:
+            conv(out)
+            raised = False
+        except BaseException:
+            raised = True
+        finally:
+            for n_ in names:
+                setattr(cu_, n_, saved[n_])
+        if not raised or not os.path.exists(out):
+            continue
+        b = open(out, 'rb').read()
+        os.remove(out)
+        L = len(b)
+        desc = {'history': 'the input raised while plane set / trace group %d was read' % k, 'kind': 'X'}
+        hdr_is_final = L >= 8192 and (b[:960] + b[980:8192]) == hdr_final
+        hash_is_final = L >= 980 and b[960:980] == final[960:980]
+        for name, args in rec['ops']:
+            res, _ = do_op(b, name, args)
+            inp = {'route': label, 'state': desc, 'length': L, 'call': name, 'args': list(args)}
+            R.case((label, 'input-exception', k, name, args), nontrivial=True)
+            judge(inp, desc, name, res, rec['want'][(name, args)], hdr_is_final, hash_is_final, n_state)
+        R.count('conversion interrupted by an exception of the input')
+
+
 import itertools, re
 try:
     recs = []
     for rt in routes():
         recs.append((rt, run_route(rt[0], rt[1], rt[2])))
+    for rt, rec in recs:
+        if rec is not None and not rt[0].startswith('numpy'):
+            interrupted_by_exception(rec)
     R.notes.append(f'{sum(rec["n_states"] for rt, rec in recs if rec)} distinct crash states')
     pool = earlier_files(recs)
     for (label, kind, conv, twin, src), rec in recs:
